@@ -75,6 +75,27 @@ var extTable = map[string]string{
 	"encoding/binary.Uvarint":                        "",
 	"encoding/binary.Varint":                         "",
 	"encoding/binary.Write":                          "",
+	// x/crypto hkdf: New = Expand(hash, Extract(hash, secret, salt), info); the returned reader keeps info
+	"golang.org/x/crypto/hkdf.New":    "h3",
+	"golang.org/x/crypto/hkdf.Expand": "h2",
+	// slices: in-place mutators
+	"slices.Sort":           "w0",
+	"slices.SortFunc":       "w0",
+	"slices.SortStableFunc": "w0",
+	"slices.Insert":         "w0;r=any",
+	"slices.Delete":         "w0;r=0",
+	"slices.DeleteFunc":     "w0;r=0",
+	"slices.Compact":        "w0;r=0",
+	"slices.CompactFunc":    "w0;r=0",
+	"slices.Replace":        "w0;r=any",
+	"slices.Grow":           "r=0",
+	"slices.Clip":           "r=0",
+	// reflection / sync containers (no longer read-only by default)
+	"reflect.TypeOf":          "",
+	"(*sync.Map).Load":        "",
+	"(*sync.Map).Delete":      "",
+	"(*sync.Map).LoadOrStore": "k1;k2",
+	"(*sync.Map).Store":       "k1;k2",
 	// crypto/subtle
 	"crypto/subtle.XORBytes":            "w0",
 	"crypto/subtle.ConstantTimeCopy":    "w1",
@@ -90,8 +111,8 @@ var extTable = map[string]string{
 	"bytes.HasPrefix":       "",
 	"bytes.HasSuffix":       "",
 	"bytes.Contains":        "",
-	"bytes.NewReader":       "",
-	"bytes.NewBuffer":       "w0;k0",
+	"bytes.NewReader":       "r=0",    // *bytes.Reader: an object that shows (reads from) its argument
+	"bytes.NewBuffer":       "w0;r=0", // *bytes.Buffer takes over its argument as its buffer
 	"(*bytes.Buffer).Write": "",
 	"(*bytes.Buffer).Bytes": "r=0",
 	"(*bytes.Buffer).Read":  "w1",
@@ -142,7 +163,7 @@ var extTable = map[string]string{
 // explicit entry is demanded) - and a byte-slice result is freshly allocated (freshPkgs) or may be a
 // view of any byte argument (viewPkgs).
 var freshPkgs = []string{
-	"fmt", "errors", "strconv", "strings", "sort", "math", "math/big", "math/bits", "time", "sync", "sync/atomic", "reflect", "log", "context", "os",
+	"fmt", "errors", "strconv", "strings", "math", "math/big", "math/bits", "time", "log", "os",
 	"unicode", "unicode/utf8", "encoding/hex", "encoding/base64", "encoding/json", "encoding/binary", "encoding/pem", "encoding/asn1",
 	"crypto", "crypto/aes", "crypto/cipher", "crypto/ecdh", "crypto/ecdsa", "crypto/ed25519", "crypto/elliptic", "crypto/hmac", "crypto/md5",
 	"crypto/rand", "crypto/rsa", "crypto/sha1", "crypto/sha256", "crypto/sha512", "crypto/sha3", "crypto/subtle", "crypto/x509", "crypto/mlkem", "crypto/hkdf",
@@ -161,6 +182,7 @@ type extEff struct {
 	app           int    // -1 = none
 	res           string // "", fresh, opaque, any, or an index
 	res1          string // result at position 1: "" (not spoken for) or fresh
+	holds         []int  // h<i>: the (interface-typed) result is an object that holds argument i
 }
 
 func parseEff(s string) extEff {
@@ -178,6 +200,9 @@ func parseEff(s string) extEff {
 		case f[0] == 'w':
 			n, _ := strconv.Atoi(f[1:])
 			e.writes = append(e.writes, n)
+		case f[0] == 'h':
+			n, _ := strconv.Atoi(f[1:])
+			e.holds = append(e.holds, n)
 		case f[0] == 'k':
 			n, _ := strconv.Atoi(f[1:])
 			e.keeps = append(e.keeps, n)
